@@ -76,7 +76,7 @@ PROPS = {
         "rule": ("(epoch, valid, preferred<=valid, route lifetime) incl. sub-second and multi-year values x non-decreasing "
                  "sequences of 2..60 clock readings placed at deadline-1ns/deadline/deadline+1ns, before the epoch, repeated; "
                  "injected clock, and (1 in 5) the real time.Now with monotonic reading inside a synctest bubble; static and "
-                 "wildcard stanzas; oracle = closed formula + monotonicity/non-negativity/preferred<=valid + constant twins. "
+                 "wildcard stanzas, the latter expanding to 1..20 prefixes / routes every one of which must carry the stanza's lifetimes; oracle = closed formula + monotonicity/non-negativity/preferred<=valid + constant twins. "
                  "Non-trivial: the sequence crosses at least one deadline."),
         "assumptions": [STAGED, BUBBLE],
         "technique": "rapid property-based testing of clock-reading histories against a closed formula and history invariants",
@@ -94,14 +94,14 @@ PROPS = {
         "rule": ("TOML documents rendered from a generated document model of the whole key grammar of reference.toml: mostly "
                  "valid documents with 0..3 perturbed keys (boundary limit-1/limit/limit+1 in several spellings, negative, "
                  "overflowing, malformed, wrong wildcard, IPv4, host bits, duplicates, overlaps, unknown keys, bad naming), "
-                 "1..3 interfaces, all stanza kinds interleaved; an exhaustive single-key boundary sweep (every duration key x "
+                 "1..3 interfaces (a names list of up to 70 in one group in 36), all stanza kinds interleaved, 0..3 prefix and route stanzas per interface and 4..10 on one interface in six (the injected overlap then pairs with any stanza, at any position); an exhaustive single-key boundary sweep (every duration key x "
                  "~80 boundary values and spellings, max x min / max x default_lifetime grids, every whole-second max_interval, "
                  "CIDR classes for prefix/route/pref64, overlap matrix); plus byte strings (raw, token soup, mutated documents) "
-                 "judged for totality. Oracle: three-valued reference validator written from the statement and reference.toml "
+                 "judged for totality and, when accepted, by a validity predicate over the resulting Config (every documented range, c02Accepted). Oracle: three-valued reference validator written from the statement and reference.toml "
                  "(accept with the exact expected Config / reject / unspecified). Non-trivial: at least one perturbed or boundary "
                  "key, or an interaction (explicit max with explicit min/default_lifetime, multi-name expansion, deprecated stanza); "
                  "for byte strings: non-empty. Distinct: FNV-64 of the canonical JSON case. Thorough tier only: 3 minutes of native coverage-guided "
-                 "fuzzing (go test -fuzz, all cores) of Parse for totality, seeded with the minimal and reference configurations and hostile "
+                 "fuzzing (go test -fuzz, all cores) of Parse for totality and the same validity predicate, seeded with the minimal and reference configurations and hostile "
                  "constants; its executions are added to `evaluations` and reported under native_fuzzing."),
         "assumptions": [STAGED, "debug addresses are IP literals or localhost (Parse resolves the address; the sandbox has no resolver)",
                         "cases listed in DESIGN.md 5.2 are counted as unspecified and not judged"],
@@ -120,8 +120,8 @@ PROPS = {
         "level": "exploration",
         "quick": {"shards": 8},
         "thorough": {"shards": 16, "timeout_s": 5400},
-        "rule": ("accepted TOML documents (generated document model, all stanza kinds 0..n, static and wildcard, 1..3 interfaces) x system "
-                 "state (address list with flags, loopback route dump, MAC present/absent, forwarding, clock reading, source failures) x "
+        "rule": ("accepted TOML documents (generated document model, all stanza kinds 0..n, static and wildcard, long stanza lists, 1..3 interfaces or up to 70 names) x system "
+                 "state (address list with flags, loopback route dump - one state in five large: 5..20 addresses in 13 networks, 4..16 routes nested four deep -, MAC present/absent, forwarding, clock reading, source failures) x "
                  "repeat count 1..4; exhaustive presence/absence of the 8 option kinds x {static, wildcard}. Path: config.Parse -> sources "
                  "injected as Prepare does -> Interface.RouterAdvertisement. Oracle: RA computed from the document model and state alone "
                  "(header, option order, wildcard expansions by the C13-C15 specifications, deprecated lifetimes by the C16 formula, exact "
@@ -162,7 +162,7 @@ PROPS = {
         "thorough": {"shards": 16},
         "rule": ("pairs (own RA, received RA): exhaustive over 17 aspects (hop limit, M, O, reachable, retransmit, MTU, prefix lifetimes, prefix "
                  "identity, route lifetime, route preference, RDNSS lifetime/servers/count, DNSSL lifetime/names/count, captive portal) x classes "
-                 "{absent/zero, x, y} on each side, singly and in all pairs; rapid-generated larger RAs (several prefixes/routes, shuffled option "
+                 "{absent/zero, x, y} on each side, singly and in all pairs; rapid-generated larger RAs (several prefixes/routes - one case in four 6..30 options a side from a 16-prefix pool with several lengths per base address, our side overlap-free -, shuffled option "
                  "order, unknown options, PREF64, SLLA; theirs derived from ours by edits half of the time). Every received RA is checked as built "
                  "and after MarshalMessage/ParseMessage. Oracle: independent rule list from the statement, compared as multisets of (field, details) "
                  "with verifyRAs, with the inconsistencies_total counter, the log lines and the hook of Advertiser.handle (ours built by buildRA from "
@@ -307,7 +307,7 @@ PROPS = {
                  "recording fakes in the staged copy) on virtual time: every distinct execution of <=3 (quick) / <=5 (thorough) decisions over dial "
                  "outcomes {ok, link-not-ready, syscall, permission, other} and task outcomes {nil, link change, syscall, permission, retries "
                  "exhausted, other} x cancellation {none, during the run} x mode {Advertise, Monitor} x initial autoconf {on, off} x one State failure "
-                 "{permission, not-exist, other} at each of the first 6 State calls; rapid-generated sequences up to 60 decisions with up to 12 "
+                 "{permission, not-exist, other} at each of the first 6 State calls; 1..300 recovery rounds within one Dial call (two recoverable causes, 0..2 failing attempts per round, three endings); rapid-generated sequences up to 60 decisions with up to 12 "
                  "scripted State failures. Oracle: host-state model over the unified log - a connection is never opened while another is open, every "
                  "connection is closed exactly once and before Dial returns (also when dial fails after opening the socket), autoconf is read/written "
                  "only during a dial or a restore, never in Monitor mode, the value restored is the value read at that dial, exactly one restore per "
@@ -336,11 +336,11 @@ PROPS = {
         "rule": ("policy layer (package system): the real Dialer.Dial on virtual time with scripted DialFunc and task; every distinct execution of <=4 "
                  "(quick) / <=6 (thorough) decisions over dial outcomes {ok, link-not-ready, syscall, permission, other} x task outcomes {nil, link "
                  "change, syscall, permission, retries exhausted, other} x 7 cancellation instants (off the 250 ms grid), enumerated by a model-driven "
-                 "DFS; 48..53 consecutive failing attempts around the 50-attempt bound; rapid-generated scripts up to 60 decisions. Oracle: reference "
+                 "DFS; 48..53 consecutive failing attempts around the 50-attempt bound; 1..300 recovery rounds within one Dial call; rapid-generated scripts up to 60 decisions. Oracle: reference "
                  "model of the policy (which steps happen, the virtual time of every dial attempt - waits 0, 250 ms, ... capped at 3 s, at most 50 - "
                  "the final result and its time); the observed trace must equal it. Liveness layer (package corerad): a fault {1..20 receive "
-                 "timeouts, read error syscall/permission/other, link event, failing n-th scheduled unicast write syscall/other} injected at a "
-                 "generated instant into a running Advertiser or Monitor with traffic pending (bursts up to 30 RS), scripted failures of the "
+                 "timeouts, read error syscall/permission/other, link event, failing n-th scheduled unicast write syscall/other, an outage = every write from the n-th on fails on the first connection} injected at a "
+                 "generated instant into a running Advertiser or Monitor with traffic pending (bursts up to 60 RS), scripted failures of the "
                  "following dial attempts, optional later cancellation, transmit latency; exhaustive fault matrix. Oracle: < 5 timeouts change "
                  "nothing; otherwise within 1 s + latencies the old connection is never used again and either a dial attempt follows (recoverable "
                  "causes) or Run returns the error without re-dialling (other causes); cancellation returns nil promptly. Non-trivial: >= 1 fault. "
@@ -361,7 +361,7 @@ PROPS = {
         "quick": {"shards": 8},
         "thorough": {"shards": 16},
         "rule": ("histories of 2..14 timed operations on a real Advertiser.Run in a synctest bubble: forwarding flips of the advertising interface and "
-                 "of up to two further configured interfaces, RS from unicast sources and ::, periodic RAs, foreign inconsistent RAs (the hook exposes "
+                 "of up to two (one case in eight: 7..100) further configured interfaces, RS from unicast sources and ::, periodic RAs, foreign inconsistent RAs (the hook exposes "
                  "CoreRAD's own RA), metric scrapes (constScrape with fresh collectors) and GET /_/api/interfaces (crhttp handler sharing the same "
                  "config.Interface values), stop with terminate; default_lifetime in {0, 12 s, 1800 s, 9000 s}; exhaustive matrix {paths} x {forwarding "
                  "before/after a flip, no flip} x lifetime {0, 1800, 9000}. Oracle per generated RA, with f = forwarding at that instant from the "
@@ -382,7 +382,7 @@ PROPS = {
         "bubble": True,
         "quick": {"shards": 8},
         "thorough": {"shards": 16},
-        "rule": ("accepted TOML configurations from the shared document model (every stanza kind incl. pref64, wildcards, deprecated entries, 1..3 interfaces, "
+        "rule": ("accepted TOML configurations from the shared document model (every stanza kind incl. pref64, wildcards, deprecated entries, long stanza lists, 1..3 interfaces or a names list of up to 70, "
                  "debug section on/off) parsed by config.Parse, wired exactly as cmd/corerad/main.go does (the same config.Interface values for "
                  "Metrics, the crhttp handler and the advertisers), advertisers running in a synctest bubble against a dialer that only succeeds from "
                  "a generated instant (never / at once / after up to 8 s), link events (re-initialisation), forwarding flips, address/route source "
@@ -406,7 +406,7 @@ PROPS = {
         "bubble": True,
         "quick": {"shards": 8},
         "thorough": {"shards": 16},
-        "rule": ("sequences of 1..12 NDP messages: RAs with arbitrary header values (hop limit 0..255, M/O, preference, lifetime 0/1/1800/9000/65535 s) and "
+        "rule": ("sequences of 1..16 NDP messages (one in four repeats an earlier message verbatim, from another sender or with one flag flipped): RAs with arbitrary header values (hop limit 0..255, M/O, preference, lifetime 0/1/1800/9000/65535 s) and "
                  "0..6 options (prefix options with repeated prefixes, lengths /0 /8 /32 /64 /128, zero, finite and infinite lifetimes; unknown, route, "
                  "RDNSS, DNSSL, MTU, SLLA options), RS, NS and NA, from 4 senders (link-local senders get a zone on the Run path), gaps of 0 ns..1 h, wall "
                  "clock 1970..2100. Two paths: Monitor.handle with an injected clock, compared after every message; and a real Monitor.Run in a synctest "
@@ -430,7 +430,7 @@ PROPS = {
         "quick": {"shards": 8},
         "thorough": {"shards": 16},
         "rule": ("action sequences of 1..40 steps on a real Watcher whose OS hook is a scripted event source: Subscribe(interface, mask) over all 127 masks "
-                 "and 3 interfaces, notify with 1..12 rtnetlink link messages (all 7 operational states, unknown values, messages without attributes) "
+                 "and 3 interfaces, notify with 1..12 rtnetlink link messages, one batch in five 9..30 messages mostly for one interface and of one dominant kind (all 7 operational states, unknown values, messages without attributes) "
                  "converted by the real process(), drain(subscriber, n), end of watch; exhaustive 127 masks x 7 single changes x {same, other "
                  "interface}; an overflow scenario around the 8-slot buffer; and (race-detector build) 300/2000 runs of Subscribe, notify and the end of "
                  "the watch from 7 concurrent goroutines. Each sequence runs in a synctest bubble: after every notify, synctest.Wait must find the "
@@ -452,11 +452,11 @@ PROPS = {
         "bubble": True,
         "quick": {"shards": 8},
         "thorough": {"shards": 16},
-        "rule": ("BuildTasks: every vector of up to 5 interfaces over {neither, advertise, monitor} x debug address on/off (exhaustive). Serve: 1..6 scripted "
+        "rule": ("BuildTasks: every vector of up to 5 interfaces over {neither, advertise, monitor} x debug address on/off (exhaustive), random vectors of up to 130. Serve: 1..6 (one case in eight 9..130) scripted "
                  "tasks (the exported Task interface) with behaviours {runs until cancelled, fails at an instant, returns nil early, takes 1 ns..30 s to "
                  "stop after cancellation (optionally failing while stopping), never ready, ready at an instant} x signal {none, SIGINT, SIGTERM, SIGHUP} "
                  "at an instant from {1 ns, 1 s, 2 s, 2 s+1 ns, 5 s, 10 s} (so signals coincide with failures), in a synctest bubble with a real "
-                 "sdnotify.Notifier on a unixgram socket read after the bubble; exhaustive behaviour pairs x signal x 3 instants. Oracle: task list "
+                 "sdnotify.Notifier on a unixgram socket read concurrently from outside the bubble; exhaustive behaviour pairs x signal x 3 instants. Oracle: task list "
                  "(one advertiser/monitor per such interface in order, none for neither, HTTP task iff address set, link watcher); event-log "
                  "invariants: every task is run, Serve returns only after every Run returned, nil iff no task returned an error else an error naming "
                  "one actually returned, every running task observes cancellation at the instant of the first failure or signal and returns after "
